@@ -137,7 +137,7 @@ PROPS = {
                 'restore_continuation requires the saved stack to be no longer than the running one; this holds because stacks never shrink (every Stack operation under contract keeps or doubles the length) but is a whole-history fact, assumed at the call site',
                 '<[T]>::to_vec / clone_from_slice specs assumed',
             ]},
-    'C14': {'groups': ['builtins'],
+    'C14': {'groups': ['builtins'], 'search': 'search_list',
             'kani': [
                 {'harness': 'vcell_accessors', 'file': 'src/vm/vcell.rs', 'kind': 'complete', 'timeout': 600, 'what': 'VCell::as_ptr/as_argc/as_car/as_cdr/as_bp/as_ep/as_ip/is_pair answer Ok(payload) exactly on the matching variant (their contracts are assumed on the Verus side)'},
             ],
